@@ -262,4 +262,758 @@ theorem drainFinds_inv {C d o} : ∀ (n : Nat) (h : Nat) (sc sc' : Sc) (ol : Opt
           refine ⟨h', ?_, hm⟩
           cases lex.ty <;> exact r1.transfer rfl rfl rfl rfl (by simpa [EvInv, Lof] using r1.ev) rfl rfl
 
+/-! ### path conditions and patterns -/
+
+theorem Sat.top (c : UInt8) : PathCond.top.Sat c := by simp [PathCond.Sat, PathCond.top]
+
+theorem Sat.thenP {c : UInt8} {P : PathCond} {bs : List UInt8} (h : P.Sat c) (hc : bs.contains c = true) :
+    (P.thenP bs).Sat c := by
+  obtain ⟨h1, h2⟩ := h
+  refine ⟨?_, h2⟩
+  intro p hp
+  simp only [PathCond.thenP] at hp
+  cases hpos : P.pos with
+  | none =>
+    simp [hpos] at hp; subst hp
+    simp only [List.contains_eq_mem, decide_eq_true_eq, List.mem_filter] at *
+    exact ⟨hc, by simpa using h2⟩
+  | some q =>
+    simp [hpos] at hp; subst hp
+    have := h1 q hpos
+    simp only [List.contains_eq_mem, decide_eq_true_eq, List.mem_filter] at *
+    exact ⟨this, by simpa using hc⟩
+
+theorem Sat.elseP {c : UInt8} {P : PathCond} {bs : List UInt8} (h : P.Sat c) (hc : bs.contains c = false) :
+    (P.elseP bs).Sat c := by
+  obtain ⟨h1, h2⟩ := h
+  constructor
+  · intro p hp
+    simp only [PathCond.elseP] at hp
+    cases hpos : P.pos with
+    | none => simp [hpos] at hp
+    | some q =>
+      simp [hpos] at hp; subst hp
+      have := h1 q hpos
+      simp only [List.contains_eq_mem, decide_eq_true_eq, decide_eq_false_iff_not, List.mem_filter] at *
+      exact ⟨this, by simpa using hc⟩
+  · simp only [PathCond.elseP, List.contains_eq_mem, decide_eq_false_iff_not, List.mem_append, not_or] at *
+    exact ⟨hc, h2⟩
+
+theorem Sat.not_isEmpty {c : UInt8} {P : PathCond} (h : P.Sat c) : P.isEmpty = false := by
+  unfold PathCond.isEmpty
+  split
+  · next hp => have := h.1 _ hp; simp at this
+  · rfl
+
+theorem Sat.nonzero {c : UInt8} {P : PathCond} (h : P.Sat c) (hn : P.nonzero = true) : c ≠ 0 := by
+  intro hc; subst hc
+  simp only [PathCond.nonzero, Bool.or_eq_true] at hn
+  rcases hn with hn | hn
+  · rw [h.2] at hn; cases hn
+  · split at hn
+    · next p hp => rw [h.1 p hp] at hn; cases hn
+    · cases hn
+
+theorem Sat.eofOnly {c : UInt8} {P : PathCond} (h : P.Sat c) (hn : P.eofOnly = true) : c = 0 := by
+  unfold PathCond.eofOnly at hn
+  split at hn
+  · next p hp =>
+    have := h.1 p hp
+    simp only [List.contains_eq_mem, decide_eq_true_eq] at this
+    simpa using (List.all_eq_true.mp hn) c this
+  · cases hn
+
+theorem MatchAt.append {d : Src} : ∀ {p : Nat} {sp : List (List UInt8)} {cls : List UInt8},
+    MatchAt d p sp → cls.contains (d.get (p + sp.length)) = true → MatchAt d p (sp ++ [cls]) := by
+  intro p sp
+  induction sp generalizing p with
+  | nil => intro cls _ h; simpa [MatchAt] using h
+  | cons x r ih =>
+    intro cls hm h
+    obtain ⟨h1, h2⟩ := hm
+    refine ⟨h1, ih h2 ?_⟩
+    simpa [Nat.add_assoc, Nat.add_comm 1] using h
+
+theorem slice_succ (d : Src) (p n : Nat) : d.slice p (p + (n + 1)) = d.get p :: d.slice (p + 1) (p + 1 + n) := by
+  simp only [Src.slice]
+  have e1 : p + (n + 1) - p = n + 1 := by omega
+  have e2 : p + 1 + n - (p + 1) = n := by omega
+  rw [e1, e2, List.range_succ_eq_map]
+  simp [Function.comp_def, Nat.add_assoc, Nat.add_comm 1]
+
+theorem MatchAt.mem_expand {d : Src} : ∀ {p : Nat} {pat : List (List UInt8)},
+    MatchAt d p pat → d.slice p (p + pat.length) ∈ expand pat := by
+  intro p pat
+  induction pat generalizing p with
+  | nil => intro _; simp [Src.slice, expand]
+  | cons cls r ih =>
+    intro hm
+    obtain ⟨h1, h2⟩ := hm
+    simp only [List.length_cons, slice_succ, expand, List.mem_flatMap, List.mem_map]
+    exact ⟨d.get p, by simpa using h1, _, ih h2, rfl⟩
+
+theorem isKw_of_match {d : Src} {p : Nat} {pat : List (List UInt8)} (hm : MatchAt d p pat)
+    (hg : goodPattern pat = true) : isKw (d.slice p (p + pat.length)) = true :=
+  (List.all_eq_true.mp hg) _ hm.mem_expand
+
+/-! ### the relation inside a byte step, and soundness of the abstract ops -/
+
+structure MidRel (C : Certs) (d : Src) (o : Oracle) (c : UInt8) (h : Nat) (a : AbsVal) (sc : Sc) : Prop where
+  ev : EvInv d o h sc
+  opn : (lastOpen (Lof sc)).map (·.1) = a.opn
+  gap : bndL h (Lof sc) + a.G + sc.rew ≤ sc.cur + 1
+  rw : a.rw = false → sc.rew = 0
+  stk : ∀ s ∈ sc.stack, C.stackable.contains s = true
+  reg : match a.reg with
+    | some r => sc.step = r
+    | none => C.stackable.contains sc.step = true
+  kw : ∀ p, lastOpen (Lof sc) = some (.keywordBegin, p) → p + a.sp.length = sc.cur ∧ MatchAt d p a.sp
+  exS : ∀ p, lastOpen (Lof sc) = some (.schemaBegin, p) → ∃ k, o.schemaLen p = .len k ∧ sc.cur = p + k
+  exE : ∀ p, lastOpen (Lof sc) = some (.enumBegin, p) → ∃ k, o.enumLen p = .len k ∧ sc.cur = p + max k 1
+  sat : a.P.Sat c
+  cur : sc.cur ≤ d.size
+  byte : c = curByte d sc
+  nz : sc.cur ≠ d.size → c ≠ 0
+
+theorem MidRel.byte_get {C d o c h a} {sc : Sc} (m : MidRel C d o c h a sc) (hc : c ≠ 0) :
+    sc.cur < d.size ∧ c = d.get sc.cur := by
+  have hb := m.byte
+  unfold curByte at hb
+  by_cases he : sc.cur = d.size
+  · simp [he] at hb; exact absurd hb hc
+  · simp [he] at hb
+    exact ⟨Nat.lt_of_le_of_ne m.cur he, hb⟩
+
+theorem lastOpen_none_of_map {L : List Evp} (h : (lastOpen L).map (·.1) = none) : lastOpen L = none := by
+  cases hl : lastOpen L <;> simp [hl] at h ⊢
+
+theorem found_sound {C d o c h a a'} {sc : Sc} {e : Ev} {back : Nat}
+    (m : MidRel C d o c h a sc) (ha : aOp C a (.found e back) = some a') (hb : back ≤ sc.cur) :
+    MidRel C d o c h a' { sc with finds := sc.finds ++ [(e, sc.cur - back)] } := by
+  have hL : Lof { sc with finds := sc.finds ++ [(e, sc.cur - back)] } = Lof sc ++ [(e, sc.cur - back)] := by
+    simp [Lof]
+  have hrw : a.rw = false := by
+    cases hr : a.rw
+    · rfl
+    · simp [aOp, hr] at ha
+  have hrew := m.rw hrw
+  have hgap := m.gap
+  rw [hrew] at hgap
+  have hcur := m.cur
+  by_cases hB : e.isBeginning = true
+  · -- a Begin
+    simp [aOp, hrw, hB] at ha
+    obtain ⟨⟨⟨⟨hopn, hG⟩, hlib⟩, hkw⟩, rfl⟩ := ha
+    have hlo : lastOpen (Lof sc) = none := lastOpen_none_of_map (by rw [m.opn, hopn])
+    refine ⟨⟨?_, m.ev.2⟩, ?_, ?_, ?_, m.stk, m.reg, ?_, ?_, ?_, m.sat, hcur, m.byte, m.nz⟩
+    · rw [hL]; exact m.ev.1.append_new _ hlo (by simp; omega) (.inl hB)
+    · rw [hL, lastOpen_append]; simp [hB]
+    · rw [hL, bndL_append]; simp [evEnd, hB, hrew]; omega
+    · intro _; exact hrew
+    · intro p hp
+      rw [hL, lastOpen_append] at hp
+      simp [hB] at hp
+      obtain ⟨he, hp⟩ := hp
+      subst he
+      simp at hkw
+      subst hkw
+      simp at hp
+      subst hp
+      simp [MatchAt]
+    · intro p hp
+      rw [hL, lastOpen_append] at hp
+      simp [hB] at hp
+      obtain ⟨he, _⟩ := hp
+      subst he
+      simp [isLib] at hlib
+    · intro p hp
+      rw [hL, lastOpen_append] at hp
+      simp [hB] at hp
+      obtain ⟨he, _⟩ := hp
+      subst he
+      simp [isLib] at hlib
+  · by_cases hE : e.isEnding = true
+    · -- an End
+      cases hopn : a.opn with
+      | none => simp [aOp, hrw, hB, hE, hopn] at ha
+      | some b =>
+        simp [aOp, hrw, hB, hE, hopn] at ha
+        obtain ⟨⟨⟨⟨⟨hmt, hG⟩, hnz⟩, hlib⟩, hkw⟩, rfl⟩ := ha
+        have hmo := m.opn
+        rw [hopn] at hmo
+        cases hlo : lastOpen (Lof sc) with
+        | none => simp [hlo] at hmo
+        | some bp =>
+          obtain ⟨b', p⟩ := bp
+          simp [hlo] at hmo
+          subst hmo
+          have hbp := lastOpen_some (h := h) hlo
+          simp at hbp
+          have hend : sc.cur - back + 1 ≤ d.size := by
+            rcases hnz with hnz | hnz
+            · omega
+            · have := (m.byte_get (Sat.nonzero m.sat hnz)).1; omega
+          have hg : GoodPair d o (b', p) (e, sc.cur - back) := by
+            refine ⟨hmt, by simp; omega, hend, ?_, ?_, ?_⟩
+            · intro hb'
+              simp at hb'
+              subst hb'
+              simp [isLib] at hlib
+              subst hlib
+              obtain ⟨k, hk1, hk2⟩ := m.exS p hlo
+              exact ⟨k, hk1, by simp; omega⟩
+            · intro hb'
+              simp at hb'
+              subst hb'
+              simp [isLib] at hlib
+              subst hlib
+              obtain ⟨k, hk1, hk2⟩ := m.exE p hlo
+              exact ⟨k, hk1, by simp; omega⟩
+            · intro hb'
+              simp at hb'
+              subst hb'
+              simp at hkw
+              obtain ⟨hb0, hkw⟩ := hkw
+              subst hb0
+              cases hpos : a.P.pos with
+              | none => simp [hpos] at hkw
+              | some cls =>
+                simp [hpos] at hkw
+                obtain ⟨hz, hgp⟩ := hkw
+                have hcc := m.sat.1 cls hpos
+                have hc0 : c ≠ 0 := by
+                  intro h0; subst h0
+                  simp at hcc
+                  exact hz hcc
+                obtain ⟨_, hget⟩ := m.byte_get hc0
+                obtain ⟨hk1, hk2⟩ := m.kw p hlo
+                have hm2 : MatchAt d p (a.sp ++ [cls]) := hk2.append (by rw [hk1, ← hget]; exact hcc)
+                have := isKw_of_match hm2 hgp
+                simp at this ⊢
+                rw [← hk1]
+                simpa [Nat.add_assoc] using this
+          refine ⟨⟨?_, m.ev.2⟩, ?_, ?_, ?_, m.stk, m.reg, ?_, ?_, ?_, m.sat, hcur, m.byte, m.nz⟩
+          · rw [hL]; exact m.ev.1.append_end _ _ hlo hg
+          · rw [hL, lastOpen_append]; simp [hB]
+          · rw [hL, bndL_append]; simp [evEnd, hB, hrew]; omega
+          · intro _; exact hrew
+          · intro p hp; rw [hL, lastOpen_append] at hp; simp [hB] at hp
+          · intro p hp; rw [hL, lastOpen_append] at hp; simp [hB] at hp
+          · intro p hp; rw [hL, lastOpen_append] at hp; simp [hB] at hp
+    · -- a context event
+      simp [aOp, hrw, hB, hE] at ha
+      obtain ⟨⟨⟨hopn, hG⟩, hnz⟩, rfl⟩ := ha
+      have hlo : lastOpen (Lof sc) = none := lastOpen_none_of_map (by rw [m.opn, hopn])
+      have hend : sc.cur - back + 1 ≤ d.size := by
+        rcases hnz with hnz | hnz
+        · omega
+        · have := (m.byte_get (Sat.nonzero m.sat hnz)).1; omega
+      refine ⟨⟨?_, m.ev.2⟩, ?_, ?_, ?_, m.stk, m.reg, ?_, ?_, ?_, m.sat, hcur, m.byte, m.nz⟩
+      · rw [hL]; exact m.ev.1.append_new _ hlo (by simp; omega) (.inr ⟨by simpa using hE, hend⟩)
+      · rw [hL, lastOpen_append]; simp [hB, hopn]
+      · rw [hL, bndL_append]; simp [evEnd, hB, hrew]; omega
+      · intro _; exact hrew
+      · intro p hp; rw [hL, lastOpen_append] at hp; simp [hB] at hp
+      · intro p hp; rw [hL, lastOpen_append] at hp; simp [hB] at hp
+      · intro p hp; rw [hL, lastOpen_append] at hp; simp [hB] at hp
+
+theorem curByte_congr {d : Src} {sc sc' : Sc} (h : sc'.cur = sc.cur) : curByte d sc' = curByte d sc := by
+  simp [curByte, h]
+
+theorem aOp_sound {C d o c h a a'} {sc sc' : Sc} {op : Op St}
+    (m : MidRel C d o c h a sc) (ha : aOp C a op = some a') (he : execOp sc op = .ok sc') :
+    MidRel C d o c h a' sc' := by
+  cases op with
+  | setStep s =>
+    simp [aOp] at ha; subst ha
+    simp [execOp] at he; subst he
+    exact ⟨m.ev, m.opn, m.gap, m.rw, m.stk, rfl, m.kw, m.exS, m.exE, m.sat, m.cur, m.byte, m.nz⟩
+  | push s =>
+    simp [aOp] at ha
+    obtain ⟨hs, rfl⟩ := ha
+    simp [execOp] at he; subst he
+    refine ⟨m.ev, m.opn, m.gap, m.rw, ?_, m.reg, m.kw, m.exS, m.exE, m.sat, m.cur, m.byte, m.nz⟩
+    intro t ht
+    rcases List.mem_cons.mp ht with rfl | ht
+    · simpa using hs
+    · exact m.stk t ht
+  | pushCur =>
+    simp [execOp] at he; subst he
+    have hreg := m.reg
+    have hs : C.stackable.contains sc.step = true ∧ a' = a := by
+      cases hr : a.reg with
+      | none => simp [aOp, hr] at ha; rw [hr] at hreg; exact ⟨hreg, ha.symm⟩
+      | some r =>
+        simp [aOp, hr] at ha
+        rw [hr] at hreg
+        simp at hreg
+        exact ⟨by rw [hreg]; simpa using ha.1, ha.2.symm⟩
+    obtain ⟨hs, rfl⟩ := hs
+    refine ⟨m.ev, m.opn, m.gap, m.rw, ?_, m.reg, m.kw, m.exS, m.exE, m.sat, m.cur, m.byte, m.nz⟩
+    intro t ht
+    rcases List.mem_cons.mp ht with rfl | ht
+    · exact hs
+    · exact m.stk t ht
+  | popToStep =>
+    simp [aOp] at ha; subst ha
+    unfold execOp at he
+    cases hst : sc.stack with
+    | nil => simp [hst] at he
+    | cons t r =>
+      simp [hst] at he; subst he
+      refine ⟨m.ev, m.opn, m.gap, m.rw, ?_, ?_, m.kw, m.exS, m.exE, m.sat, m.cur, m.byte, m.nz⟩
+      · intro s hs; exact m.stk s (by rw [hst]; exact List.mem_cons_of_mem _ hs)
+      · exact m.stk t (by rw [hst]; exact List.mem_cons_self)
+  | rewind n =>
+    simp [aOp] at ha
+    obtain ⟨hn, rfl⟩ := ha
+    simp [execOp] at he; subst he
+    refine ⟨m.ev, m.opn, ?_, ?_, m.stk, m.reg, m.kw, m.exS, m.exE, m.sat, m.cur, m.byte, m.nz⟩
+    · have := m.gap; simp [Lof] at this ⊢; omega
+    · intro hf; simp at hf
+  | found e back =>
+    unfold execOp at he
+    by_cases hb : back ≤ sc.cur
+    · simp [hb] at he; subst he
+      exact found_sound m ha hb
+    · simp [hb] at he
+
+theorem aOps_sound {C d o c h} : ∀ (ops : List (Op St)) {a a'} {sc sc' : Sc},
+    MidRel C d o c h a sc → aOps C a ops = some a' → execOps sc ops = .ok sc' → MidRel C d o c h a' sc' := by
+  intro ops
+  induction ops with
+  | nil =>
+    intro a a' sc sc' m ha he
+    simp [aOps] at ha; simp [execOps] at he
+    subst ha; subst he; exact m
+  | cons op r ih =>
+    intro a a' sc sc' m ha he
+    unfold aOps at ha
+    unfold execOps at he
+    cases h1 : aOp C a op with
+    | none => simp [h1] at ha
+    | some a1 =>
+      cases h2 : execOp sc op with
+      | error f => simp [h2] at he
+      | ok sc1 =>
+        simp only [h1] at ha
+        simp only [h2] at he
+        exact ih (aOp_sound m h1 h2) ha he
+
+/-! ### the end of a byte step -/
+
+/-- what holds after the step function(s) returned, once `curIndex++` (and the pending rewind) is applied -/
+def PostRel (C : Certs) (d : Src) (o : Oracle) (h : Nat) (sc1 : Sc) : Prop :=
+  sc1.rew ≤ sc1.cur + 1 → StRel C d o h { sc1 with cur := sc1.cur + 1 - sc1.rew, rew := 0 }
+
+theorem MidRel.withP {C d o c h a} {sc : Sc} (m : MidRel C d o c h a sc) {P : PathCond} (hP : P.Sat c) :
+    MidRel C d o c h { a with P := P } sc :=
+  ⟨m.ev, m.opn, m.gap, m.rw, m.stk, m.reg, m.kw, m.exS, m.exE, hP, m.cur, m.byte, m.nz⟩
+
+theorem mem_of_contains {l : List St} {s : St} (h : l.contains s = true) : s ∈ l := by simpa using h
+
+theorem entryDone_sound {C d o c h a} {sc : Sc} (m : MidRel C d o c h a sc)
+    (he : entryDone C a sc.step = true) : PostRel C d o h sc := by
+  intro hrw
+  refine ⟨by simpa [EvInv, Lof] using m.ev, rfl, m.stk, ?_⟩
+  intro _
+  unfold entryDone at he
+  cases hce : C.cert sc.step with
+  | none => simp [hce] at he
+  | some ce =>
+    simp only [hce, Bool.and_eq_true, beq_iff_eq, decide_eq_true_eq] at he
+    obtain ⟨⟨ho, hg⟩, hm⟩ := he
+    have hgap := m.gap
+    refine ⟨ce, hce, ?_, ?_, ?_, ?_, ?_⟩
+    · simp only [Lof]; rw [ho]; exact m.opn
+    · simp only [Lof] at hgap ⊢; omega
+    · intro p hp
+      have hlo : lastOpen (Lof sc) = some (.keywordBegin, p) := hp
+      have hopn := m.opn
+      rw [hlo] at hopn
+      simp at hopn
+      rw [← hopn] at hm
+      simp at hm
+      obtain ⟨_, hrw', hm⟩ := hm
+      cases hpos : a.P.pos with
+      | none => simp [hpos] at hm
+      | some cls =>
+        simp [hpos] at hm
+        obtain ⟨hz, hsp⟩ := hm
+        have hcc := m.sat.1 cls hpos
+        have hc0 : c ≠ 0 := by
+          intro h0; subst h0
+          simp at hcc
+          exact hz hcc
+        obtain ⟨_, hget⟩ := m.byte_get hc0
+        obtain ⟨hk1, hk2⟩ := m.kw p hlo
+        have hr0 := m.rw hrw'
+        rw [hsp]
+        refine ⟨?_, hk2.append (by rw [hk1, ← hget]; exact hcc)⟩
+        simp [hr0]; omega
+    · intro p hp
+      have hlo : lastOpen (Lof sc) = some (.schemaBegin, p) := hp
+      have hopn := m.opn
+      rw [hlo] at hopn
+      simp at hopn
+      rw [← hopn] at hm
+      simp [isLib] at hm
+    · intro p hp
+      have hlo : lastOpen (Lof sc) = some (.enumBegin, p) := hp
+      have hopn := m.opn
+      rw [hlo] at hopn
+      simp at hopn
+      rw [← hopn] at hm
+      simp [isLib] at hm
+
+theorem done_sound {C d o c h a} {run : St → AbsVal → Bool} {sc : Sc} (m : MidRel C d o c h a sc)
+    (hc : aCont C run a .done = true) : PostRel C d o h sc := by
+  simp only [aCont, Bool.or_eq_true, Bool.and_eq_true] at hc
+  rcases hc with ⟨he, hrw⟩ | hc
+  · -- the EOF step: no step follows
+    intro _
+    have hc0 := Sat.eofOnly m.sat he
+    have hcur : sc.cur = d.size := by
+      apply Classical.byContradiction
+      intro hne
+      exact m.nz hne hc0
+    have hr0 := m.rw (by simpa using hrw)
+    refine ⟨by simpa [EvInv, Lof] using m.ev, rfl, m.stk, ?_⟩
+    intro hle
+    simp [hr0, hcur] at hle; omega
+  · apply entryDone_sound m
+    have hreg := m.reg
+    cases hr : a.reg with
+    | some r => simp [hr] at hc hreg; rw [hreg]; exact hc
+    | none =>
+      simp only [hr] at hc hreg
+      exact (List.all_eq_true.mp hc) _ (mem_of_contains hreg)
+
+theorem lib_sound {C d o c h a} {sc sc1 : Sc} {begin : Ev} {closing : St} {ans : LenAns} {z : Bool}
+    (m : MidRel C d o c h a sc) (hl : libOK C a begin closing = true)
+    (hb : begin.isBeginning = true) (hK : begin ≠ .keywordBegin)
+    (hS : begin = .schemaBegin → ans = o.schemaLen sc.cur ∧ z = (c != 0))
+    (hE : begin = .enumBegin → ans = o.enumLen sc.cur)
+    (hlb : libBody sc begin ans closing z = .ok sc1) : PostRel C d o h sc1 := by
+  unfold libBody at hlb
+  cases ans with
+  | miss => simp at hlb
+  | err pos => simp at hlb
+  | len n =>
+    simp only at hlb
+    by_cases hz : (n == 0 && z) = true
+    · simp [hz] at hlb
+    · simp only [hz, if_false, Except.ok.injEq, Bool.false_eq_true] at hlb
+      subst hlb
+      unfold libOK at hl
+      cases hce : C.cert closing with
+      | none => simp [hce] at hl
+      | some ce =>
+        simp only [hce, Bool.and_eq_true, beq_iff_eq, decide_eq_true_eq, Option.isNone_iff_eq_none,
+          Bool.not_eq_true'] at hl
+        obtain ⟨⟨⟨hopn, hG⟩, hrw⟩, hco, hcg⟩ := hl
+        have hr0 := m.rw hrw
+        have hgap := m.gap
+        rw [hr0] at hgap
+        have hlo : lastOpen (Lof sc) = none := lastOpen_none_of_map (by rw [m.opn, hopn])
+        intro _
+        have hL : ∀ (cur' rew' : Nat), Lof { sc with finds := sc.finds ++ [(begin, sc.cur)], cur := cur', step := closing, rew := rew' } = Lof sc ++ [(begin, sc.cur)] := by
+          intros; simp [Lof]
+        refine ⟨⟨?_, m.ev.2⟩, rfl, m.stk, ?_⟩
+        · show WfL d o h (Lof _)
+          rw [hL]; exact m.ev.1.append_new _ hlo (by simp; omega) (.inl hb)
+        · intro hle
+          show EntRel C d o closing _ (bndL h (Lof _)) (lastOpen (Lof _))
+          rw [hL, bndL_append, lastOpen_append]
+          simp only [hb, if_true, evEnd]
+          simp only [hr0] at hle ⊢
+          refine ⟨ce, hce, by simp [hco], by simp; omega, ?_, ?_, ?_⟩
+          · intro p hp; simp at hp; exact absurd hp.1 hK
+          · intro p hp
+            simp at hp
+            obtain ⟨hbs, rfl⟩ := hp
+            obtain ⟨h1, h2⟩ := hS hbs
+            refine ⟨n, h1.symm, ?_⟩
+            cases n with
+            | zero =>
+              simp [h2] at hz
+              have : sc.cur = d.size := by
+                apply Classical.byContradiction
+                intro hne
+                exact m.nz hne hz
+              simp at hle; omega
+            | succ k => simp; omega
+          · intro p hp
+            simp at hp
+            obtain ⟨hbs, rfl⟩ := hp
+            refine ⟨n, (hE hbs).symm, ?_⟩
+            simp; omega
+
+/-! ### the interpreter -/
+
+/-- the checked tree admits the selected leaf, with a path condition the byte satisfies -/
+theorem aCode_select {C : Certs} {run : St → AbsVal → Bool} {c : UInt8} (ev : Cond → Bool) :
+    ∀ (code : Code St) (a : AbsVal), aCode C run a code = true → a.P.Sat c →
+    ∃ P a', P.Sat c ∧ aOps C { a with P := P } (code.select c ev).1 = some a' ∧
+      aCont C run a' (code.select c ev).2 = true := by
+  intro code
+  induction code with
+  | leaf ops k =>
+    intro a hc hs
+    simp only [aCode] at hc
+    cases ho : aOps C a ops with
+    | none => simp [ho] at hc
+    | some a' =>
+      simp only [ho] at hc
+      exact ⟨a.P, a', hs, by simpa [Code.select] using ho, by simpa [Code.select] using hc⟩
+  | ifB bs t e iht ihe =>
+    intro a hc hs
+    simp only [aCode, Bool.and_eq_true, Bool.or_eq_true] at hc
+    by_cases hb : bs.contains c = true
+    · have hs' := Sat.thenP hs hb
+      have hb2 : c ∈ bs := by simpa using hb
+      rcases hc.1 with hemp | hc1
+      · rw [Sat.not_isEmpty hs'] at hemp; cases hemp
+      · obtain ⟨P, a', h1, h2, h3⟩ := iht _ hc1 hs'
+        exact ⟨P, a', h1, by simpa [Code.select, hb2] using h2, by simpa [Code.select, hb2] using h3⟩
+    · have hb' : bs.contains c = false := by simpa using hb
+      have hs' := Sat.elseP hs hb'
+      have hb2 : c ∉ bs := by simpa using hb
+      rcases hc.2 with hemp | hc2
+      · rw [Sat.not_isEmpty hs'] at hemp; cases hemp
+      · obtain ⟨P, a', h1, h2, h3⟩ := ihe _ hc2 hs'
+        exact ⟨P, a', h1, by simpa [Code.select, hb2] using h2, by simpa [Code.select, hb2] using h3⟩
+  | ifC cd t e iht ihe =>
+    intro a hc hs
+    simp only [aCode, Bool.and_eq_true] at hc
+    by_cases hb : ev cd = true
+    · obtain ⟨P, a', h1, h2, h3⟩ := iht _ hc.1 hs
+      exact ⟨P, a', h1, by simpa [Code.select, hb] using h2, by simpa [Code.select, hb] using h3⟩
+    · obtain ⟨P, a', h1, h2, h3⟩ := ihe _ hc.2 hs
+      exact ⟨P, a', h1, by simpa [Code.select, hb] using h2, by simpa [Code.select, hb] using h3⟩
+
+theorem interp_sound {C : Certs} {d : Src} {o : Oracle} {c : UInt8} {h : Nat}
+    (hT : ∀ st, stateOK C st = true) :
+    ∀ (cf af : Nat) (st : St) (a : AbsVal) (sc sc1 : Sc), aRun C af st a = true → MidRel C d o c h a sc →
+      interp d o c cf st sc = .ok sc1 → PostRel C d o h sc1 := by
+  intro cf
+  induction cf with
+  | zero => intro af st a sc sc1 _ _ hi; simp [interp] at hi
+  | succ cf ih =>
+    intro af st a sc sc1 hr m hi
+    cases af with
+    | zero => simp [aRun] at hr
+    | succ af =>
+      simp only [aRun] at hr
+      obtain ⟨P, a', hP, hops, hcont⟩ := aCode_select (c := c) (evalCond d sc) (code st) a hr m.sat
+      unfold interp at hi
+      generalize hsel : (code st).select c (evalCond d sc) = sel at hi hops hcont
+      obtain ⟨ops, k⟩ := sel
+      simp only at hi hops hcont
+      cases he : execOps sc ops with
+      | error f => simp [he] at hi
+      | ok sc' =>
+        simp only [he] at hi
+        have m' := aOps_sound ops (m.withP hP) hops he
+        cases k with
+        | done =>
+          simp only [Except.ok.injEq] at hi
+          subst hi
+          exact done_sound m' hcont
+        | err => simp at hi
+        | call s' => exact ih af s' a' sc' sc1 hcont m' hi
+        | redispatch =>
+          simp only at hi
+          simp only [aCont] at hcont
+          have hreg := m'.reg
+          cases hr' : a'.reg with
+          | some r =>
+            simp only [hr'] at hcont hreg
+            rw [hreg] at hi
+            exact ih af r a' sc' sc1 hcont m' hi
+          | none =>
+            simp only [hr'] at hcont hreg
+            have hen := (List.all_eq_true.mp hcont) _ (mem_of_contains hreg)
+            unfold entryRedisp at hen
+            cases hce : C.cert sc'.step with
+            | none => simp [hce] at hen
+            | some ce =>
+              simp only [hce, Bool.and_eq_true, decide_eq_true_eq, Option.isNone_iff_eq_none,
+                Bool.not_eq_true'] at hen
+              obtain ⟨⟨⟨hco, hao⟩, hg⟩, hrw⟩ := hen
+              have hst := hT sc'.step
+              simp only [stateOK, hce] at hst
+              have hlo : lastOpen (Lof sc') = none := lastOpen_none_of_map (by rw [m'.opn, hao])
+              have hgap := m'.gap
+              have m2 : MidRel C d o c h (entryAbs ce sc'.step) sc' := by
+                refine ⟨m'.ev, ?_, ?_, fun _ => m'.rw hrw, m'.stk, rfl, ?_, ?_, ?_, Sat.top c, m'.cur, m'.byte, m'.nz⟩
+                · simp [entryAbs, hlo, hco]
+                · simp only [entryAbs]; omega
+                · intro p hp; rw [hlo] at hp; cases hp
+                · intro p hp; rw [hlo] at hp; cases hp
+                · intro p hp; rw [hlo] at hp; cases hp
+              exact ih absFuel sc'.step _ sc' sc1 hst m2 hi
+        | jschema =>
+          simp only at hi
+          simp only [aCont] at hcont
+          exact lib_sound m' hcont rfl (by decide) (fun _ => ⟨rfl, rfl⟩) (fun hh => by cases hh) hi
+        | enumBody =>
+          simp only at hi
+          simp only [aCont] at hcont
+          exact lib_sound m' hcont rfl (by decide) (fun hh => by cases hh) (fun _ => rfl) hi
+
+/-- a byte step preserves the state relation -/
+theorem byteStep_inv {C : Certs} {d : Src} {o : Oracle} (hT : ∀ st, stateOK C st = true) {h : Nat}
+    {sc sc2 : Sc} (r : StRel C d o h sc) (hc : sc.cur ≤ d.size) (hs : byteStep d o sc = .ok sc2) :
+    StRel C d o h sc2 := by
+  unfold byteStep at hs
+  simp only at hs
+  by_cases hnul : (sc.cur != d.size && curByte d sc == 0) = true
+  · simp [hnul] at hs
+  · simp only [hnul, if_false, Bool.false_eq_true] at hs
+    cases hi : interp d o (curByte d sc) stepFuel sc.step sc with
+    | error s => simp [hi] at hs
+    | ok sc1 =>
+      simp only [hi] at hs
+      by_cases hrew : sc1.rew > sc1.cur + 1
+      · simp [hrew] at hs
+      · simp only [hrew, if_false, Except.ok.injEq] at hs
+        subst hs
+        obtain ⟨ce, hce, ho, hg, hkw, hS, hE⟩ := r.ent hc
+        have hst := hT sc.step
+        simp only [stateOK, hce] at hst
+        have m : MidRel C d o (curByte d sc) h (entryAbs ce sc.step) sc := by
+          refine ⟨r.ev, ho, ?_, fun _ => r.rew, r.stk, rfl, hkw, hS, hE, Sat.top _, hc, rfl, ?_⟩
+          · simp only [entryAbs, r.rew]; omega
+          · intro hne h0
+            apply hnul
+            simp [hne, h0]
+        exact interp_sound hT _ _ _ _ _ _ hst m hi (Nat.le_of_not_gt hrew)
+
+theorem stRel_init {C : Certs} {d : Src} {o : Oracle} (hI : initOK C = true) : StRel C d o 0 Sc.init := by
+  unfold initOK at hI
+  cases hce : C.cert .stateRoot with
+  | none => simp [hce] at hI
+  | some ce =>
+    simp only [hce, Bool.and_eq_true, beq_iff_eq, Option.isNone_iff_eq_none] at hI
+    refine ⟨⟨by simpa [Lof, Sc.init] using WfL.nil 0, .inl rfl⟩, rfl, by simp [Sc.init], ?_⟩
+    intro _
+    refine ⟨ce, hce, ?_, ?_, ?_, ?_, ?_⟩ <;> simp [Lof, Sc.init, lastOpen, lastOpenA, bndL, hI.1, hI.2]
+
+/-! ### the loops of `Next` and `lexAll`, given that a byte step preserves the relation -/
+
+def StepOK (C : Certs) (d : Src) (o : Oracle) : Prop :=
+  ∀ (h : Nat) (sc sc2 : Sc), StRel C d o h sc → sc.cur ≤ d.size → byteStep d o sc = .ok sc2 → StRel C d o h sc2
+
+theorem byteLoop_inv {C d o} (HS : StepOK C d o) : ∀ (fuel : Nat) (h : Nat) (sc sc' : Sc) (ol : Option Lexeme),
+    StRel C d o h sc → byteLoop d o fuel sc = .ok (ol, sc') → Deliver C d o h ol sc' := by
+  intro fuel
+  induction fuel with
+  | zero => intro h sc sc' ol r hb; simp [byteLoop] at hb
+  | succ fuel ih =>
+    intro h sc sc' ol r hb
+    unfold byteLoop at hb
+    by_cases hc : sc.cur > d.size
+    · simp [hc] at hb
+      obtain ⟨rfl, rfl⟩ := hb
+      exact ⟨h, r, rfl⟩
+    · simp only [hc, if_false] at hb
+      cases hs : byteStep d o sc with
+      | error s => simp [hs] at hb
+      | ok sc2 =>
+        simp only [hs] at hb
+        have r2 := HS h sc sc2 r (Nat.le_of_not_gt hc) hs
+        cases hd : drainFinds sc2.finds.length sc2 with
+        | error s => simp [hd] at hb
+        | ok res =>
+          obtain ⟨ol3, sc3⟩ := res
+          have dl := drainFinds_inv _ _ _ _ _ r2 hd
+          cases ol3 with
+          | some lex =>
+            simp [hd] at hb
+            obtain ⟨rfl, rfl⟩ := hb
+            exact dl
+          | none =>
+            simp only [hd] at hb
+            obtain ⟨h', r3, hm⟩ := dl
+            simp only at hm
+            subst hm
+            exact ih _ _ _ _ r3 hb
+
+theorem next_inv {C d o} (HS : StepOK C d o) {fuel h} {sc sc' : Sc} {ol : Option Lexeme}
+    (r : StRel C d o h sc) (hn : next d o fuel sc = .ok (ol, sc')) : Deliver C d o h ol sc' := by
+  unfold next at hn
+  cases hf : sc.finds with
+  | nil => simp only [hf] at hn; exact byteLoop_inv HS _ _ _ _ _ r hn
+  | cons ev rest =>
+    simp only [hf] at hn
+    cases hp : processEvent { sc with finds := rest } ev with
+    | error s => simp [hp] at hn
+    | ok res =>
+      obtain ⟨ol1, sc1⟩ := res
+      obtain ⟨h1, h2, h3, h4, _, h', hev, hb, hl, hm⟩ := processEvent_inv hf r.ev hp
+      have r1 : StRel C d o h' sc1 := r.transfer h1 h2 h3 h4 hev hb hl
+      cases ol1 with
+      | none =>
+        simp only [hp] at hn
+        simp only at hm
+        subst hm
+        exact byteLoop_inv HS _ _ _ _ _ r1 hn
+      | some lex =>
+        simp [hp] at hn
+        obtain ⟨rfl, rfl⟩ := hn
+        exact ⟨h', r1, hm⟩
+
+theorem lexAll_inv {C d o} (HS : StepOK C d o) : ∀ (n : Nat) (h : Nat) (sc : Sc) (acc : List Lexeme),
+    StRel C d o h sc → List.Pairwise (fun l₂ l₁ : Lexeme => l₁.e1 ≤ l₂.b) acc →
+    (∀ l ∈ acc, l.e1 ≤ h) → (∀ l ∈ acc, LexGood d o l) →
+    List.Pairwise (fun l₁ l₂ : Lexeme => l₁.e1 ≤ l₂.b) (lexAll d o n sc acc).1 ∧
+    ∀ l ∈ (lexAll d o n sc acc).1, LexGood d o l := by
+  intro n
+  induction n with
+  | zero =>
+    intro h sc acc r hp hh hg
+    simp only [lexAll]
+    exact ⟨List.pairwise_reverse.mpr hp, fun l hl => hg l (List.mem_reverse.mp hl)⟩
+  | succ n ih =>
+    intro h sc acc r hp hh hg
+    unfold lexAll
+    cases hn : next d o (4 * (d.size + 2)) sc with
+    | error s => exact ⟨List.pairwise_reverse.mpr hp, fun l hl => hg l (List.mem_reverse.mp hl)⟩
+    | ok res =>
+      obtain ⟨ol, sc'⟩ := res
+      cases ol with
+      | none => exact ⟨List.pairwise_reverse.mpr hp, fun l hl => hg l (List.mem_reverse.mp hl)⟩
+      | some lex =>
+        obtain ⟨h', r', hb, hlg, rfl⟩ := next_inv HS r hn
+        apply ih lex.e1 sc' (lex :: acc) r'
+        · exact List.pairwise_cons.mpr ⟨fun l0 hl0 => Nat.le_trans (hh l0 hl0) hb, hp⟩
+        · intro l hl
+          rcases List.mem_cons.mp hl with rfl | hl
+          · exact Nat.le_refl _
+          · exact Nat.le_trans (hh l hl) (Nat.le_trans hb hlg.1)
+        · intro l hl
+          rcases List.mem_cons.mp hl with rfl | hl
+          · exact hlg
+          · exact hg l hl
+
+/-! ### the table theorem and the run-level result -/
+
+theorem St.mem_all : ∀ st : St, st ∈ St.all := by intro st; cases st <;> decide
+
+/-- the abstract interpretation of every state function of the CURRENT generated table succeeds with the
+certificates computed from that table -/
+theorem table_ok : ∀ st ∈ St.all, stateOK certs st = true := by decide +kernel
+
+theorem init_ok : initOK certs = true := by decide +kernel
+
+theorem stepOK (d : Src) (o : Oracle) : StepOK certs d o :=
+  fun _ _ _ r hc hs => byteStep_inv (fun st => table_ok st (St.mem_all st)) r hc hs
+
+/-- every lexeme of a run is good, and the lexemes are ordered -/
+theorem lexAll_good (d : Src) (o : Oracle) (n : Nat) :
+    List.Pairwise (fun l₁ l₂ : Lexeme => l₁.e1 ≤ l₂.b) (lexAll d o n Sc.init []).1 ∧
+    ∀ l ∈ (lexAll d o n Sc.init []).1, LexGood d o l :=
+  lexAll_inv (stepOK d o) n 0 Sc.init [] (stRel_init init_ok) List.Pairwise.nil (by simp) (by simp)
+
 end JSight.ScanLex
